@@ -1640,7 +1640,7 @@ func c14GenFadt(t *rapid.T, st *vlib.Stats, c *c14Case, tb *c14Table, openB bool
 	case 4:
 		total = rapid.IntRange(148, 159).Draw(t, "fadt148")
 	case 5:
-		total = rapid.IntRange(160, 243).Draw(t, "fadt160")
+		total = rapid.SampledFrom([]int{160, 160, 161, 168, 200, 243}).Draw(t, "fadt160")
 	case 6, 7:
 		total = 244 // ACPI 2.0 - 5.0
 	case 8:
@@ -1691,7 +1691,15 @@ func c14GenFadt(t *rapid.T, st *vlib.Stats, c *c14Case, tb *c14Table, openB bool
 	}
 	// F-C14b is open: keep only FADTs in which every candidate agrees, so that the
 	// expectation does not depend on which one the driver reads
-	if !c14PtrsAgree(tb) {
+	// ... more precisely: FADTs for which the candidate the driver reads today (byte 152 below a
+	// root table of revision >= 2, byte 40 otherwise) refers to the table ACPI designates (the
+	// 64-bit pointer at byte 140 unless it is zero, else the 32-bit one). A FADT with only a
+	// 64-bit pointer below a revision-2 root table passes as long as byte 152 repeats it.
+	reads := tb.Fadt.P40
+	if c.RootRev >= 2 {
+		reads = tb.Fadt.P152
+	}
+	if eff := c14EffectivePtr(tb); reads != eff || (eff != "dsdt" && eff != "alt") {
 		st.Exclude("F-C14b: FADT whose DSDT pointer candidates (bytes 40 / 140 / 152) differ (constructed around: all made equal)")
 		p.P40, p.P140, p.P152 = "dsdt", "", ""
 		if total >= 148 {
